@@ -178,6 +178,14 @@ impl Tileset<RawPixels> {
                 tile_width, tile_height
             )));
         }
+        // `Tileset::image` arranges all tiles in one vertical strip. The height of
+        // that strip has to fit into the `u32` image dimensions.
+        if (tile_count as u64) * (tile_height as u64) > u32::MAX as u64 {
+            return Err(AsepriteParseError::InvalidInput(format!(
+                "Tileset is too tall: {} tiles of height {}",
+                tile_count, tile_height
+            )));
+        }
         let tile_size = TileSize {
             width: tile_width,
             height: tile_height,
